@@ -64,6 +64,7 @@ type jobctlWorld struct {
 	indexHashes    []string
 	decidedAtSync  string // non-empty: the strategy was already decided by what the running sync can see
 	failBias       bool   // kubelet terminations are mostly failures (retry-focused histories)
+	ttlVisible     bool   // every task of the Job was in the pod cache when the controller issued the TTL delete
 	staleRecreate  bool   // E-FreshJobOnCreate left (known finding F19): two incarnations of one task name
 	lateFinish     bool   // a pod that is being deleted often still runs to completion before it goes away
 	kubeletDead    bool   // the kubelet never finishes terminating a deleted pod (node unreachable)
@@ -319,6 +320,21 @@ func (w *jobctlWorld) work() {
 			// reaches the server; the liveness of its tasks was judged at the delete instant)
 			if cf := j.Status.Condition.Finished; cf != nil && cf.FinishTimestamp.Add(ttl).UnixNano() > w.ttlDeleteAt {
 				w.c.Violate("C13", "ttl-not-early", "Job deleted at %d before finish %d + ttl %v", w.ttlDeleteAt, cf.FinishTimestamp.UnixNano(), ttl)
+			}
+			// ... and the finish time itself is the moment the LAST task finished (ground truth: the
+			// kubelet's termination times of the Job's pods still on the server), not an earlier one
+			for _, p := range w.ownedPods() {
+				if !w.ttlVisible {
+					break // some task of the Job was invisible to the sync that deleted it (pod-cache lag)
+				}
+				if cf := j.Status.Condition.Finished; cf == nil || (cf.Result != execution.JobResultSuccess && cf.Result != execution.JobResultFailed) {
+					break // an AdmissionError / Killed Job is finished by the decision, its tasks are stopped afterwards
+				}
+				for _, cs := range p.Status.ContainerStatuses {
+					if t := cs.State.Terminated; t != nil && !t.FinishedAt.IsZero() && t.FinishedAt.Add(ttl).UnixNano() > w.ttlDeleteAt {
+						w.c.Violate("C13", "ttl-not-early", "Job deleted at %d although its task %s finished at %d: finish + ttl %v not reached", w.ttlDeleteAt, p.Name, t.FinishedAt.UnixNano(), ttl)
+					}
+				}
 			}
 		}
 		w.ttlDeleteAt = 0
@@ -836,6 +852,7 @@ func (w *jobctlWorld) monitorCall(c sim.Call) {
 				visible = false
 			}
 		}
+		w.ttlVisible = visible && !w.staleRecreate
 		if visible && !w.staleRecreate {
 			for _, p := range w.ownedPods() {
 				if podAlive(p) && p.DeletionTimestamp == nil {
